@@ -60,11 +60,12 @@ def base_coverage(run, r, au, extra_rule=''):
         certs[v] = certs.get(v, 0) + 1
     nstates = sum(s['states'] for s in r['stats'].values())
     run.coverage.update(dict(
-        obligations=au['obligations'] + certs.get('OK', 0) + certs.get('FAIL', 0),
-        discharged=au['discharged'] + certs.get('OK', 0),
+        obligations=au['obligations'] + certs.get('OK', 0) + certs.get('OKL', 0) + certs.get('FAIL', 0),
+        discharged=au['discharged'] + certs.get('OK', 0) + certs.get('OKL', 0),
         theorem_obligations=au['obligations'], theorem_discharged=au['discharged'],
         theorems=au['names'], axioms=au['axioms'],
-        validator_runs=sum(certs.values()), validator_ok=certs.get('OK', 0), validator_lookaround=certs.get('LOOK', 0),
+        validator_runs=sum(certs.values()), validator_ok=certs.get('OK', 0), validator_ok_lookaround=certs.get('OKL', 0),
+        validator_lookaround_uncertified=certs.get('LOOK', 0),
         validator_unknown=certs.get('UNKNOWN', 0), validator_fail=certs.get('FAIL', 0),
         checker_cmd=au['checker_cmd'], trusted_base=TRUSTED_BASE,
         definitions=len(r['corpus']), definitions_accepted=len(r['accepted']),
@@ -156,8 +157,8 @@ def check_stream_props(prop, tier, seed, log=print):
         if idx not in oracle_fail_defs:
             run.violation('certificate', dict(definition=srcs[idx], origin=corpus[idx].origin,
                                               verdict=lean.get('%d CERT' % idx),
-                                              what='validB rejected the captured graph: theorem lex_eq_spec no longer applies to this definition',
-                                              theorem='Logos.lex_eq_spec (hypothesis Valid via validB_sound)'), no_input=True,
+                                              what='the proved certificate checker (validB; validCB / liveCertB for look-around) rejected the captured graph: theorem lex_eq_spec / lex_eq_specC no longer applies to this definition',
+                                              theorem='Logos.lex_eq_spec (hypothesis Valid via validB_sound) / Logos.LK.lex_eq_specC (ValidC via validCB_sound, VExact via liveCertB_sound)'), no_input=True,
                           key='cert|%s' % corpus[idx].origin)
     if prop == 'C03':
         c03_extra(run, r, log)
@@ -172,7 +173,8 @@ def check_stream_props(prop, tier, seed, log=print):
                                   'non-trivial = stream has >= 2 items or an error item; distinct by (definition, input)',
                              samples=samples, model_vs_impl_disagreements=model_dis, impl_vs_oracle_failures=oracle_fail,
                              input_stats={str(k): v for k, v in list(r['stats'].items())[:12]}))
-    run.assumptions += ['look-around definitions are covered by the graph-level theorems and the implementation-vs-model tie only (spec-level theorems are stated for the look-free fragment)',
+    run.assumptions += ['definitions with look-around assertions are certified by validCB + liveCertB against the contextual reference lexer specLexC (theorems Logos.LK.lex_eq_specC, C01_look_*, C02_look_*); '
+                        'when the viability table exceeds its size cap the verdict is LOOK and only the graph-level theorems, the implementation-vs-model tie and the PikeVM reference cover the definition',
                         'quantifier over definitions is sampled (corpus); per validated definition the theorem covers every input']
     return run.finish()
 
@@ -295,7 +297,7 @@ def pikevm_pass(run, r, log):
     does not decide where a no-match error ends; it resumes where the implementation resumed."""
     import subprocess
     lean = r['lean']
-    look = [i for i in r['accepted'] if lean.get('%d CERT' % i, '') == 'LOOK']
+    look = [i for i in r['accepted'] if lean.get('%d CERT' % i, '').split(' ')[0] in ('LOOK', 'OKL')]
     cfg = 'tail' if r['zoo_out'].get('tail') else next((c for c, o in r['zoo_out'].items() if o), None)
     st = streams_of(r, cfg) if cfg else None
     if not look or st is None:
@@ -891,7 +893,7 @@ def check_c07(tier, seed, log=print):
     certp = dict(P=0, noP=0)
     for i in r['accepted']:
         v = lean.get('%d CERT' % i, '')
-        if v.startswith('OK'):
+        if v.startswith('OK '):
             flag = v.split(' ')[-1]
             certp[flag] = certp.get(flag, 0) + 1
             if flag == 'noP' and i not in fails:
